@@ -20,6 +20,7 @@ EXTRA_TEXTS = [
   ('aggregates', 'P(x, s? += y, m? Max= y) distinct :- Q(x, y);\nR(x) List= y :- Q(x, y);\nS() += 1 :- Q(x, y), ~R(x, y);'),
   ('functors_annotations', '@Ground(P);\n@OrderBy(P, "col0 desc");\nF := G(A: B, C: D);\nP(x) order_by("col0") limit(3) :- Q(x);'),
   ('combines', 'P(x, a, b) :- A(x), a == Sum{y :- Q(x, y)}, b Max= (y + a :- R(x, y)), c == (combine Min= y :- R(y, x));'),
+  ('empty_containers', 'P(x, [], {}) :- Q(x), x in [], y == [ ], Size([]) == 0;\nR() :- P(x, [], {});'),
   ('implication_etc', 'P(x) :- A(x), (Q(x, y) => B(y)), ~(C(x), D(x)), (x == 1 | x == 2, x > 0);'),
 ]
 
@@ -102,14 +103,22 @@ def _one(i):
   bs = boundaries(text)
   rnd = random.Random(seed * 1000 + i)
   cases = []
-  for b in bs:
-    cases.append((b, rnd.choice(NOISE)))
+  qbs = bs if tier == 'thorough' or len(bs) <= 14 else sorted(rnd.sample(bs, 14))
+  # brackets that open an empty pair are always included
+  qbs = sorted(set(qbs) | {b for b in bs if text[b - 1:b + 1] in ('[]', '{}', '()')})
+  for b in qbs:
+    # every boundary gets a blank and a newline; plus one heavier noise item chosen at random
+    cases += [(b, ' '), (b, '\n'), (b, rnd.choice(NOISE[3:]))]
   if tier == 'thorough':
-    cases += [(b, n) for b in bs for n in NOISE[:5]]
-  else:
-    rnd.shuffle(cases)
-    cases = cases[:25]
+    cases += [(b, n) for b in bs for n in NOISE[1:]]
   variants = [text[:b] + n + text[b:] for b, n in cases]
+  # redundant parentheses, nested, with layout between the levels, around integer literals and rule bodies
+  for wrap in ('(%s)', '((%s))', '( (%s) )', '(\n  (%s)\n)'):
+    body_start = text.rfind(':- ')
+    nums = [m for m in re.finditer(r'(?<![\w."\'@])\d+(?![\w."\'])', text) if m.start() > body_start > 0
+            and text.count('"', 0, m.start()) % 2 == 0]
+    for m in nums[:3]:
+      variants.append(text[:m.start()] + wrap % m.group(0) + text[m.end():])
   # noise at several places at once, trailing semicolon / comment, leading comment
   many = text
   for b in sorted(rnd.sample(bs, min(4, len(bs))), reverse=True):
@@ -119,7 +128,8 @@ def _one(i):
   last = text.split('\n')[-1]
   m = re.search(r':- (.*);$', last)
   if m and '|' not in m.group(1) and last.count(':-') == 1:
-    variants.append(text[:len(text) - len(last)] + last[:last.index(':- ') + 3] + '(' + m.group(1) + ');')
+    for wrap in ('(%s)', '( (%s) )', '(\n (%s)\n )'):
+      variants.append(text[:len(text) - len(last)] + last[:last.index(':- ') + 3] + wrap % m.group(1) + ';')
   for v in variants:
     res['evaluations'] += 1
     try:
@@ -141,8 +151,6 @@ def _one(i):
 def layout(tier, seed):
   global _JOBS
   texts = [(s['name'], s['text'].replace(lgen.E, '')) for s in lgen.ALL] + EXTRA_TEXTS
-  if tier == 'quick':
-    texts = texts[::2] + EXTRA_TEXTS
   _JOBS = [(n, t, tier, seed) for n, t in texts]
   with multiprocessing.get_context('fork').Pool(16) as pool:
     rs = pool.map(_one, range(len(_JOBS)))
